@@ -30,20 +30,29 @@ def _mk(bid, what, bound, runner):
 
 TABLE = {
     "C01": [_mk("B01", "operator precedence, associativity, parentheses, kind matrix and metadata constants against a reference evaluator written from the property text",
-                "21x21 operand pairs x 12 operators; 1500 random expression strings (depth <= 4) per seed; 15 fixed logic / metadata cases",
+                "21x21 operand pairs x 12 operators; 1500 random expression strings (depth <= 4) per seed; 20 fixed logic / literal / metadata cases",
                 lambda repo, seed: adapters.run_expr_battery(repo, seed=seed or 1, count=1500))],
     "C02": [_mk("B02", "statement programs (if / else-if chains, for with continue and break, nested loops, compound assignments, return, forRange over slice / map / array) against the same logic written in Go",
-                "5 program shapes x parameter 0..7, forRange over sizes 0..4",
+                "6 program shapes x parameter 0..7 (incl. empty loop body / empty branch), forRange over sizes 0..4",
                 lambda repo, seed: adapters.run_stmt_battery(repo))],
     "C03": [_mk("B03", "field / pointer-scalar writes across numeric classes, container reads and writes (missing keys, variable keys, pointer and value containers), calls with mixed-class arguments: host state against the property text",
-                "12 target kinds x 7 sources; 20 container cases; 3 call shapes; fixed values",
+                "12 target kinds x 7 sources; 22 container cases; 3 call shapes; name injected mid-rule; fixed values",
                 lambda repo, seed: adapters.run_inject_battery(repo))],
+    "C04": [_mk("B04", "random rule sets (ok / failing / stop-tag / stop-then-fail rules, tied and negative saliences) through Execute, ExecuteWithStopTagDirect and the sorted selected variants: order, exactly-once, error policy, stop tag against the property text",
+                "600 rule sets of 1..6 rules x both error policies x 5 entry points per seed",
+                lambda repo, seed: adapters.run_seq_battery(repo, seed=seed or 1, count=600))],
     "C08": [_mk("B08", "random sequences of full build / incremental build / removal on a builder and on a pool against a reference model (existence, count, salience, description, sort-model order, versions)",
                 "150 builder sequences x 12 operations and 76 pool sequences x 10 operations over 6 rule names per seed",
                 lambda repo, seed: adapters.run_merge_battery(repo, seed=seed or 1, count=150))],
     "C10": [_mk("B10", "totality (no panic), agreement of the five compile entry points and all-or-nothing on mutated rule texts; covers the clause no contract decides: that the ANTLR recogniser and the listener return normally on arbitrary text",
                 "600 mutated texts (1-3 character / token mutations of three valid texts) per seed",
                 lambda repo, seed: adapters.run_compile_battery(repo, seed=seed or 1, count=600))],
+    "C12": [_mk("B12", "the sorted selected variants on random rule sets and random (shuffled) name selections: only selected rules run, each once, in salience order, with the documented error policy",
+                "400 rule sets of 1..6 rules x both error policies per seed (the selected entry points of the sequential battery)",
+                lambda repo, seed: adapters.run_seq_battery(repo, seed=(seed or 1) + 200, count=400))],
+    "C14": [_mk("B14", "stop tag in the sort model and the sorted selected variant: a rule that sets the tag is the last one to run, also when it fails afterwards, and the error policy still holds",
+                "400 rule sets of 1..6 rules x both error policies per seed (the stop-tag entry points of the sequential battery)",
+                lambda repo, seed: adapters.run_seq_battery(repo, seed=(seed or 1) + 300, count=400))],
     "C16": [_mk("B16", "random pool management sequences (full, incremental, removal, clear) against a reference model; queries and executions on three overlapping requests",
                 "76 pool sequences x 10 operations per seed",
                 lambda repo, seed: adapters.run_merge_battery(repo, seed=(seed or 1) + 100, count=150))],
